@@ -93,6 +93,7 @@ class Walk:
         self.clock = t0
         self.last_stream = None
         self.rejected = None       # info of the illegal event, once one was added
+        self.soft = False          # the illegal event has a natural effect; walk may continue
         self.n = 0
         self.unclaimed = 0
         self.same_clock = 0
@@ -109,7 +110,7 @@ class Walk:
     def emit(self, th, mcv, payload_hex="", jumbo=0, allow_same=True, must=False):
         """Try to append an event by thread th.  Returns 'ok', 'illegal' (added,
         walk is finished), 'unclaimed' (not added)."""
-        if self.rejected is not None:
+        if self.rejected is not None and (not self.soft or not must):
             return "done"
         sidx = th.sidx
         clk = self._next_clock(sidx, allow_same)
@@ -126,6 +127,13 @@ class Walk:
             self.clock = clk
             self.last_stream = sidx
             self.rejected = {"mcv": mcv, "why": r.why, "stream": sidx}
+            # Build the continuation "as if the event had been accepted": a
+            # tree that wrongly accepts it must then reach a clean end.
+            try:
+                self.model.apply(sidx, e, permissive=True)
+                self.soft = True
+            except R.Reject:
+                self.soft = False
             return "illegal"
         self.tr["streams"][sidx]["events"].append(e)
         self.clock = clk
@@ -195,8 +203,19 @@ class Walk:
         return T.P("I", b.task.id)
 
     def close_all(self, unwind=True):
-        for th in self.threads():
-            self.close_thread(th, unwind)
+        """Bring every thread to Dead.  Threads that never started execute on
+        the virtual CPU first; paused threads whose CPU is busy are retried
+        after the others have ended."""
+        for _round in range(4):
+            pending = False
+            for th in self.threads():
+                if th.state == R.ST_UNKNOWN:
+                    self.legal(th, "OHx", T.P("iiQ", -1, -1, 0))
+                self.close_thread(th, unwind)
+                if th.state != R.ST_DEAD:
+                    pending = True
+            if not pending:
+                break
 
     def all_dead_or_unstarted(self):
         return all(t.state in (R.ST_DEAD,) for t in self.threads())
@@ -252,6 +271,25 @@ def model_pairs(m):
     if m not in _pairs_by_model:
         _pairs_by_model[m] = R.region_pairs(m)
     return _pairs_by_model[m]
+
+
+def prop_contend(draw, w, th):
+    """An event that would put a second RUNNING thread on an occupied physical CPU."""
+    loom = th.proc.loom
+    busy = [c for c in loom.cpus_by_index.values() if any(t.state == R.ST_RUNNING for t in c.threads)]
+    if not busy:
+        return None
+    c = draw(st.sampled_from(sorted(busy, key=lambda c: c.index)))
+    if th.state == R.ST_UNKNOWN:
+        return ("OHx", T.P("iiQ", c.index, -1, 0), 0)
+    if th.state in (R.ST_PAUSED, R.ST_WARMING) and th.cpu is c:
+        return ("OHr", "", 0)
+    if th.state == R.ST_RUNNING and th.cpu is not c:
+        return ("OAs", T.P("i", c.index), 0)
+    others = [t for t in w.threads() if t.proc.loom is loom and t.state == R.ST_RUNNING and t.cpu is not c and t is not th]
+    if others and th.state in R.ACTIVE:
+        return ("OAr", T.P("ii", c.index, draw(st.sampled_from(others)).tid), 0)
+    return None
 
 
 def prop_region(draw, w, th, models, wild=False, pop_bias=2):
@@ -364,7 +402,162 @@ def prop_task(draw, w, th, models, wild=False):
     return (m + "T" + a, _tp(m, task.id, bid), 0)
 
 
+def prop_task_wild(draw, w, th, models):
+    """Targeted violations of the task rules named in C07."""
+    ms = [m for m in models if m in ("V", "6")]
+    if not ms:
+        return None
+    m = draw(st.sampled_from(ms))
+    proc = th.proc
+    tasks = proc.tasks[m]
+    cands = []
+    top = th.bodies[-1] if th.bodies else None
+    for t in tasks.values():
+        for b in t.bodies.values():
+            bid = b.id
+            if b.state == "running" and b.thread is th and b is top and "parallel" in t.flags:
+                cands.append(("p", t.id, bid))            # parallel bodies cannot pause
+            if b.state in ("running", "paused") and b.thread is not th:
+                cands.append(("x", t.id, bid))            # body lives on another thread's stack
+                cands.append(("e", t.id, bid))
+                cands.append(("r", t.id, bid))
+            if b.thread is th and b is not top and b.state == "paused":
+                cands.append(("r", t.id, bid))            # resume of a non-top body
+            if b.thread is th and b is not top:
+                cands.append(("e", t.id, bid))
+            if b.state == "dead" and "resurrect" not in t.flags:
+                cands.append(("x", t.id, bid))            # only resurrectable tasks run again
+            if b.state == "created":
+                cands.append(("p", t.id, bid))
+        if top is not None and top.state == "running" and t is not top.task and "relax" not in top.task.flags:
+            nb = 1 if "parallel" in t.flags else 0
+            if not t.bodies or "parallel" in t.flags:
+                cands.append(("x", t.id, nb))             # nest over a running body
+    if not cands:
+        return prop_task(draw, w, th, models, wild=True)
+    a, tid, bid = draw(st.sampled_from(sorted(set(cands))))
+    return (m + "T" + a, _tp(m, tid, bid), 0)
+
+
 def _tp(m, tid, bid):
     if m == "V":
         return T.P("II", tid, bid)
     return T.P("I", tid)
+
+
+# ---------------------------------------------------------------------------
+# generic history strategy
+
+class Profile:
+    def __init__(self, kinds, models=None, max_looms=2, max_procs=2, max_threads=3, max_cpus=3,
+                 steps=(5, 50), modes=("legal", "legal", "illegal", "noend"), lint=True,
+                 marks=0, ranks=False, min_threads=1, breakdown=False, unwind=None, flags=None,
+                 wild_kinds=None):
+        self.kinds = kinds              # list of kind names (repeat for weight)
+        self.models = models            # None = draw; list = fixed; callable(draw) -> list
+        self.max_looms, self.max_procs, self.max_threads, self.max_cpus = max_looms, max_procs, max_threads, max_cpus
+        self.steps = steps
+        self.modes = modes
+        self.lint = lint
+        self.marks = marks
+        self.ranks = ranks
+        self.min_threads = min_threads
+        self.breakdown = breakdown
+        self.unwind = unwind
+        self.flags = flags
+        self.wild_kinds = wild_kinds or kinds
+
+
+WILD_CODES = ["VZz", "6Zz", "OZz", "OHz", "OAx", "KCx", "MZZ", "TZz", "DZz", "PZz", "VTz", "6Tz", "VYx", "XXX"]
+
+
+def propose(draw, w, th, kind, models, wild=False):
+    if kind == "state":
+        return prop_state(draw, w, th, wild)
+    if kind == "affinity":
+        return prop_affinity(draw, w, th)
+    if kind == "contend":
+        return prop_contend(draw, w, th) or prop_affinity(draw, w, th)
+    if kind == "region":
+        if wild and draw(st.integers(0, 3)) == 0:
+            allm = [m for m in ALL_MODELS if model_pairs(m)]
+            m = draw(st.sampled_from(allm))
+            r = draw(st.sampled_from(model_pairs(m)))
+            return (r[draw(st.sampled_from(["enter", "leave"]))], "", 0)
+        return prop_region(draw, w, th, models, wild)
+    if kind == "gated":
+        # a region event by a thread that is not in the state its model requires
+        bad = [t for t in w.threads() if t.state in (R.ST_PAUSED, R.ST_COOLING, R.ST_WARMING, R.ST_UNKNOWN, R.ST_DEAD)
+               or t.out_of_cpu]
+        if not bad:
+            return None
+        t2 = draw(st.sampled_from(bad))
+        p = prop_region(draw, w, t2, models)
+        if p is None:
+            return None
+        return ("@", t2, p)
+    if kind == "idle":
+        return prop_idle(draw, w, th, models)
+    if kind == "mark":
+        return prop_mark(draw, w, th, wild)
+    if kind == "noeffect":
+        return prop_noeffect(draw, w, th)
+    if kind == "flush":
+        return prop_flush(draw, w, th)
+    if kind == "kernel":
+        return prop_kernel(draw, w, th) if "K" in models else None
+    if kind == "task":
+        if wild and draw(st.integers(0, 3)) != 0:
+            return prop_task_wild(draw, w, th, models)
+        return prop_task(draw, w, th, models, wild)
+    if kind == "unknown":
+        return (draw(st.sampled_from(WILD_CODES)), "", 0)
+    raise ValueError(kind)
+
+
+@st.composite
+def history(draw, prof):
+    models = prof.models
+    if callable(models):
+        models = models(draw)
+    tr = draw(systems(max_looms=prof.max_looms, max_procs=prof.max_procs, max_threads=prof.max_threads,
+                      max_cpus=prof.max_cpus, models=models, ranks=prof.ranks, marks=prof.marks,
+                      min_threads=prof.min_threads, breakdown=prof.breakdown))
+    models = tr["_models"]
+    lint = prof.lint if isinstance(prof.lint, bool) else draw(st.booleans())
+    w = Walk(draw, tr, lint=lint)
+    ths = w.threads()
+    n = draw(st.integers(*prof.steps))
+    mode = draw(st.sampled_from(prof.modes))
+    bad_at = draw(st.integers(0, max(0, n - 1))) if mode == "illegal" else -1
+    # most threads start right away
+    for th in ths:
+        if draw(st.integers(0, 4)) != 0:
+            w.legal(th, *prop_execute(draw, w, th))
+    for step in range(n):
+        if w.rejected is not None and (not w.soft or draw(st.integers(0, 3)) == 0):
+            break
+        th = ths[draw(st.integers(0, len(ths) - 1))]
+        wild = (step == bad_at)
+        if th.state == R.ST_UNKNOWN and not wild:
+            w.legal(th, *prop_execute(draw, w, th, prefer_free=draw(st.integers(0, 3)) != 0))
+            continue
+        if th.state == R.ST_DEAD and not wild:
+            continue
+        kind = draw(st.sampled_from(prof.wild_kinds if wild else prof.kinds))
+        p = propose(draw, w, th, kind, models, wild)
+        if p is None:
+            continue
+        if p[0] == "@":
+            th, p = p[1], p[2]
+        if wild:
+            w.emit(th, *p)
+        else:
+            w.legal(th, *p)
+    if (w.rejected is None or w.soft) and mode != "noend":
+        unwind = prof.unwind if prof.unwind is not None else draw(st.booleans())
+        w.close_all(unwind=unwind)
+    flags = list(prof.flags) if prof.flags is not None else (["-l"] if lint else [])
+    tr["_flags"] = flags
+    tr["_mode"] = mode
+    return tr
